@@ -2,6 +2,7 @@
   C20 — property theorems (model: ShelxModel/C20.lean), over exact real arithmetic.
 -/
 import ShelxModel.C20
+import ShelxModel.Extracted.C20Src
 import ShelxProps.Lemmas.C20Jacobi
 import Mathlib.Tactic.Ring
 import Mathlib.Tactic.Linarith
@@ -439,5 +440,74 @@ theorem fitFragmentOld_not_places :
   have := h _ _ fitFragmentOld_fails_on
   revert this
   decide +kernel
+
+/-! ## the tie to the traced source (`ShelxModel/Extracted/C20Src.lean`, regenerated on every run)
+
+  `extract/trace_c20.py` runs quatfit.py's own functions on symbolic numbers (`extract/symtrace.py`); what CPython
+  computed is written out as the straight-line definitions `Src.…`. Each `src_…` theorem: for ALL real inputs that
+  program IS the model function the theorems above are about (`q2mat`, `transpose`, `rotmol`, the quadratic form
+  handed to `jacobi` — captured at the call — for one and for three point pairs, `centroid`, `matrix_minus/plus_vect`,
+  `rmsd`). The loops are unrolled by the trace, so the list-valued targets are instances (1, 2 or 3 points) of the
+  model's folds; the fold itself (any number of points) is the hand-written part validated by the correspondence.
+  The Jacobi iteration branches on its numbers and is not traced.
+-/
+def flatP {K : Type} (p : P3 K) : List K := [p.x, p.y, p.z]
+def flatPs {K : Type} (ps : List (P3 K)) : List K := ps.flatMap flatP
+def flatM3 {K : Type} (m : M3 K) : List K := [m.m00, m.m01, m.m02, m.m10, m.m11, m.m12, m.m20, m.m21, m.m22]
+def flatS4 {K : Type} (n : S4 K) : List K := [n.n00, n.n01, n.n02, n.n03, n.n11, n.n12, n.n13, n.n22, n.n23, n.n33]
+
+syntax "src_tie" "[" Lean.Parser.Tactic.simpLemma,* "]" : tactic
+macro_rules
+  | `(tactic| src_tie [$ls,*]) => `(tactic| (simp only [$ls,*] <;> try ring_nf))
+
+theorem src_q2mat (q : Q4 ℝ) : Src.q2mat q.q0 q.q1 q.q2 q.q3 = flatM3 (q2mat q) := by
+  src_tie [Src.q2mat, q2mat, flatM3]
+
+theorem src_transpose (u : M3 ℝ) :
+    Src.transpose u.m00 u.m01 u.m02 u.m10 u.m11 u.m12 u.m20 u.m21 u.m22 = flatM3 (transpose u) := by
+  src_tie [Src.transpose, transpose, flatM3]
+
+theorem src_rotmol1 (u : M3 ℝ) (p : P3 ℝ) :
+    Src.rotmol1 u.m00 u.m01 u.m02 u.m10 u.m11 u.m12 u.m20 u.m21 u.m22 p.x p.y p.z = flatPs (rotmol [p] u) := by
+  src_tie [Src.rotmol1, rotmol, rotPoint, flatPs, flatP, List.map, List.flatMap_cons, List.flatMap_nil, List.append_nil, List.cons_append, List.nil_append]
+
+theorem src_rotmol2 (u : M3 ℝ) (p1 p2 : P3 ℝ) :
+    Src.rotmol2 u.m00 u.m01 u.m02 u.m10 u.m11 u.m12 u.m20 u.m21 u.m22 p1.x p1.y p1.z p2.x p2.y p2.z
+      = flatPs (rotmol [p1, p2] u) := by
+  src_tie [Src.rotmol2, rotmol, rotPoint, flatPs, flatP, List.map, List.flatMap_cons, List.flatMap_nil, List.append_nil, List.cons_append, List.nil_append]
+
+theorem src_qform1 (s t : P3 ℝ) :
+    Src.qform1 s.x s.y s.z t.x t.y t.z = flatS4 (qformPairs [(s, t)]) := by
+  src_tie [Src.qform1, qformPairs, qformOf, corr, corrStep, acc0, List.foldl, flatS4]
+
+theorem src_qform3 (s1 s2 s3 t1 t2 t3 : P3 ℝ) :
+    Src.qform3 s1.x s1.y s1.z s2.x s2.y s2.z s3.x s3.y s3.z t1.x t1.y t1.z t2.x t2.y t2.z t3.x t3.y t3.z
+      = flatS4 (qformPairs [(s1, t1), (s2, t2), (s3, t3)]) := by
+  src_tie [Src.qform3, qformPairs, qformOf, corr, corrStep, acc0, List.foldl, flatS4]
+
+theorem src_minusVect2 (p1 p2 v : P3 ℝ) :
+    Src.minusVect2 p1.x p1.y p1.z p2.x p2.y p2.z v.x v.y v.z = flatPs (minusVect [p1, p2] v) := by
+  src_tie [Src.minusVect2, minusVect, flatPs, flatP, List.map, List.flatMap_cons, List.flatMap_nil, List.append_nil, List.cons_append, List.nil_append]
+
+theorem src_plusVect2 (p1 p2 v : P3 ℝ) :
+    Src.plusVect2 p1.x p1.y p1.z p2.x p2.y p2.z v.x v.y v.z = flatPs (plusVect [p1, p2] v) := by
+  src_tie [Src.plusVect2, plusVect, flatPs, flatP, List.map, List.flatMap_cons, List.flatMap_nil, List.append_nil, List.cons_append, List.nil_append]
+
+theorem src_centroid3 (isZero : ℝ → Bool) (hz : ∀ x, isZero x = true ↔ x = 0) (p1 p2 p3 : P3 ℝ) :
+    (centroid isZero [p1, p2, p3]).map flatP
+      = some (Src.centroid3 p1.x p1.y p1.z p2.x p2.y p2.z p3.x p3.y p3.z) := by
+  have h3 : isZero ((0 : ℝ) + 1 + 1 + 1) = false := by
+    cases h : isZero ((0 : ℝ) + 1 + 1 + 1) with
+    | false => rfl
+    | true => exact absurd ((hz _).mp h) (by norm_num)
+  simp only [centroid, List.foldl, h3, Src.centroid3, flatP, Option.map, Bool.false_eq_true, if_false]
+  norm_num
+
+theorem src_rmsd2 (sqrt : ℝ → ℝ) (v1 v2 w1 w2 : P3 ℝ) :
+    rmsd sqrt [v1, v2] [w1, w2]
+      = some (Src.rmsd2 sqrt v1.x v1.y v1.z v2.x v2.y v2.z w1.x w1.y w1.z w2.x w2.y w2.z) := by
+  simp only [rmsd, ssd, ssdStep, lenK, List.zip_cons_cons, List.zip_nil_right, List.foldl, Src.rmsd2]
+  congr 2
+  ring_nf
 
 end Shelx.C20
